@@ -140,26 +140,6 @@ Definition spec_parse (c : compiler) (argv : list string) : option (list config 
            else None
        end.
 
-(* A flag that a later parser rule defines again takes the later definition, as modes and
-   passes of the same name do ("a user configuration extends the built-in one").  The code
-   instead registers both rules and argparse raises "conflicting option string" on every
-   command of that compiler: known finding redefined-flag-crashes. *)
-Fixpoint resolve_rules (rs : list rule) : list rule :=
-  match rs with
-  | [] => []
-  | r :: t =>
-      match filter (fun f => negb (smem f (all_flags t))) (r_flags r) with
-      | [] => resolve_rules t
-      | fl => {| r_flags := fl; r_act := r_act r; r_dest := r_dest r; r_default := r_default r |} :: resolve_rules t
-      end
-  end.
-Definition resolved (c : compiler) : compiler :=
-  {| c_alias := c_alias c; c_opts := c_opts c; c_rules := resolve_rules (c_rules c);
-     c_modes := c_modes c; c_passes := c_passes c |}.
-Definition rules_conflict (c : compiler) : bool := conflict [] (generic_rules ++ c_rules c).
-Definition spec_parse_cmd (c : compiler) (argv : list string) : option (list config * list string) :=
-  if rules_conflict c then spec_parse (resolved c) argv else spec_parse c argv.
-
 (* ------------------------------------------------------------------ aliases: the path semantics *)
 Definition next_name (t : table) (x : string) : option (option string) :=
   (* None: x is not in the table; Some None: x is a real compiler; Some (Some a): alias of a *)
@@ -204,4 +184,4 @@ Definition spec_resolve (t : table) (name : string) : status :=
 (* the whole sequence of commands: every command is judged on its own *)
 Definition spec_cmd (t : table) (cmd : string * list string) : status * option (list config * list string) :=
   let st := spec_resolve t (basename (fst cmd)) in
-  (st, spec_parse_cmd (compiler_of t st) (snd cmd)).
+  (st, spec_parse (compiler_of t st) (snd cmd)).
